@@ -103,7 +103,7 @@ else:
         except OSError:
             lines = []
         seen = set()
-        for m in re.finditer(r"Props/" + prop + r"\.lean:(\d+):\d+: error", log):
+        for m in re.finditer(r"Props/" + prop + r"\.lean:(\d+):\d+", log):
             ln = int(m.group(1))
             for i in range(min(ln, len(lines)) - 1, -1, -1):
                 mm = re.match(r"theorem\s+(\S+)", lines[i])
